@@ -119,6 +119,7 @@ class Driver:
         self.gentle = False         # only requests for one key at a time, position given by arguments
         self.ooo = False            # many requests by explicit position, out of index order
         self.default_acct = cfg['acct']     # the account requests without account number refer to
+        self.queue = []             # requests of a scenario under way
         self.exported = False       # public_master() was called on the current wallet object
         self.ever_exported = False
 
@@ -264,6 +265,24 @@ class Driver:
         def top(net, wt, acct, ch):
             ix = [k[4] for k in leafs if k[:4] == [net, wt, acct, ch]]
             return max(ix) if ix else -1
+        if self.queue:
+            return self.queue.pop(0)
+        if not cfg['ms'] and rng.random() < (0.2 if self.ooo else 0.07):
+            # scenario: keys of one chain created by position in descending order with holes (as a restore or an import of
+            # known positions does), the wallet possibly reopened, then fresh keys of that chain
+            net, wt, acct, ch = some_chain()
+            have = {k[4] for k in leafs if k[:4] == [net, wt, acct, ch]}
+            top = max(have | {0})
+            hi = top + rng.choice([2, 3, 4])
+            lows = [i for i in range(0, hi) if i not in have]
+            picks = sorted(rng.sample(lows, min(len(lows), rng.choice([1, 1, 2]))), reverse=True)
+            plan = [req('key_for_path', net, wt, acct, ch, 1, i) for i in [hi] + picks]
+            if rng.random() < 0.3:
+                plan.append(req('reopen', cfg['net'], cfg['wt'], cfg['acct']))
+            plan.append(req(rng.choice(['new_keys', 'new_keys', 'get_keys']), net, wt, acct, ch, rng.choice([1, 2, 2, 3])))
+            plan.append(req('new_keys', net, wt, acct, ch, rng.choice([1, 2])))
+            self.queue = plan[1:]
+            return plan[0]
         if self.ooo and rng.random() < 0.45:
             # a key by explicit position, in no particular order: holes, descending, behind the end
             net, wt, acct, ch = some_chain()
